@@ -112,6 +112,10 @@ pub fn build() {
             "register-files".to_string()
         }
     };
+    // A kernel that predates IORING_SETUP_NO_SQARRAY (a10 requires it).
+    if fault <= 2 && tape::chance(site::FAULT, 1, 12) {
+        kcfg.old_kernel = true;
+    }
     kcfg.sq_start = if tape::chance(site::COUNTER, 1, 3) { 0u32.wrapping_sub(tape::choose(site::COUNTER, 5)) } else { 0 };
     kcfg.cq_start = if tape::chance(site::COUNTER, 1, 3) { 0u32.wrapping_sub(tape::choose(site::COUNTER, 5)) } else { 0 };
     kernel::with(|k| k.cfg = kcfg.clone());
